@@ -911,7 +911,13 @@ class Mgm2Computation(VariableComputation):
                 for n, val in self._neighbors_gains.items()
                 if n != self._partner.name
             ]
-            if neigh_gains == [] or self._potential_gain > max(neigh_gains):
+            # gains are signed (current cost - new cost): the best gain is the
+            # highest one when minimizing and the lowest one when maximizing.
+            if (
+                neigh_gains == []
+                or (self._mode == "min" and self._potential_gain > max(neigh_gains))
+                or (self._mode == "max" and self._potential_gain < min(neigh_gains))
+            ):
                 if self.logger.isEnabledFor(logging.INFO):
                     self.logger.info(
                         f"Commited and best gain : GO for "
@@ -930,8 +936,15 @@ class Mgm2Computation(VariableComputation):
             self._enter_state("go?")
 
         else:
-            max_neighbors = max(list(self._neighbors_gains.values()))
-            if self._potential_gain > max_neighbors:
+            # gains are signed (current cost - new cost): the best gain is the
+            # highest one when minimizing and the lowest one when maximizing.
+            if self._mode == "min":
+                max_neighbors = max(list(self._neighbors_gains.values()))
+                has_best_gain = self._potential_gain > max_neighbors
+            else:
+                max_neighbors = min(list(self._neighbors_gains.values()))
+                has_best_gain = self._potential_gain < max_neighbors
+            if has_best_gain:
                 if self.logger.isEnabledFor(logging.INFO):
                     self.logger.info(
                         f"Local gain is best, {self.name} unilaterally changes its "
